@@ -7,6 +7,7 @@
     printed, is the parser's business: that part is covered by the marker oracle on the real parser only. *)
 From Coq Require Import List NArith Bool String.
 From Acra Require Import Lib.Bytes Gen.SqlSchema Model.SqlRedact Proofs.SqlRedact.
+From Acra Require Import Gen.CensorLogSites Model.CensorLog Proofs.CensorLog.
 Import ListNotations.
 Local Open Scope N_scope.
 
@@ -94,6 +95,78 @@ Theorem C16_parsed_logged_redacted_only :
   l_text e = TEmpty \/ l_text e = TPrinted (redact VALUE_MASK t).
 Proof. exact parsed_logged_redacted_only. Qed.
 Print Assumptions C16_parsed_logged_redacted_only.
+
+(** ---------- the firewall's log calls as they stand in the source (Gen/CensorLogSites.v) ----------
+    The three theorems above speak about a hand-written model of HandleQuery.  The following ones speak about the
+    model of Model/CensorLog.v, which takes from tables regenerated by go/ast on every run WHAT each log call of
+    acra-censor_implementation.go receives: for every call of HandleQuery the branch it stands in (parse error
+    ignored / denied, capture handler, ignore handler checked / matched, allow-deny handler checked / denied /
+    allowed, fall-through) and which of HandleQuery's values each argument is (the raw statement, the normalized
+    text, the redacted text, the parsed statement), and for logAllowedQuery / logDeniedQuery their guarded clauses
+    with level, format and arguments of each log call.
+
+    Static reading — every log call reachable from HandleQuery, each of its arguments and field values resolved
+    through the helper's parameter to HandleQuery's values, whatever the guards: it is nothing, the redacted text, or
+    the parsed statement printed with %T.  Finite check over the regenerated tables lifted by forallb_forall: a log
+    call that is handed rawQuery or normalizedQuery anywhere (the ignore branch included) stops the build. *)
+Theorem C16_no_log_call_receives_the_statement :
+  forall (c : ccall) (s : clogsite) (src : csrc) (type_only : bool),
+  In c CENSOR_HANDLE_QUERY -> In (s, src, type_only) (resolved_args c) ->
+  src = CS_none \/ src = CS_redacted \/ (src = CS_parsed /\ type_only = true).
+Proof. exact no_log_call_receives_statement. Qed.
+Print Assumptions C16_no_log_call_receives_the_statement.
+
+(** the tables were understood: no call in a branch the reader could not name, no guard or argument it could not
+    read, every helper found with the right arity, CheckQuery calls in the branches where the model runs them, and
+    the only other call that receives something derived from the statement is the parser *)
+Theorem C16_censor_sites_understood : tables_understood = true.
+Proof. exact tables_understood_ok. Qed.
+Print Assumptions C16_censor_sites_understood.
+
+(** the handlers' own log lines (allowall, deny, denyall ... CheckQuery) have no argument derived from their
+    parameters (the statement text, the parsed statement) *)
+Theorem C16_handlers_log_no_argument :
+  forall x : string * clogsite, In x CENSOR_HANDLER_SITES -> ls_args (snd x) = [].
+Proof. exact handlers_log_no_argument. Qed.
+Print Assumptions C16_handlers_log_no_argument.
+
+(** Dynamic reading — EVERY configuration (any handler chain with any verdicts: capture, ignore matching or not,
+    allow / deny continuing, stopping or denying; ignore_parse_error on / off; parse_errors_log on / off), a
+    statement that parsed or did not: every log line of the run carries the redacted text of the statement or no
+    text of it.  Induction over the handler chain; the base is a finite check over the branches of the regenerated
+    table with the helpers' guards evaluated. *)
+Theorem C16_firewall_logs_redacted_only :
+  forall (cfg : censor_cfg) (parsed : option tree) (e : slogev),
+  In e (censor_logs cfg parsed) ->
+  sl_text e = TEmpty \/ exists t : tree, parsed = Some t /\ sl_text e = TPrinted (redact VALUE_MASK t).
+Proof. exact firewall_logs_redacted_only. Qed.
+Print Assumptions C16_firewall_logs_redacted_only.
+
+Theorem C16_firewall_never_logs_unparsed :
+  forall (cfg : censor_cfg) (e : slogev), In e (censor_logs cfg None) -> sl_text e = TEmpty.
+Proof. exact firewall_never_logs_unparsed. Qed.
+Print Assumptions C16_firewall_never_logs_unparsed.
+
+(** ... and the redacted text logged is the print of a tree in which no node Walk reaches is a literal (composition
+    with C16_normalize_leaves_no_literal) *)
+Theorem C16_firewall_log_text_has_no_literal :
+  forall (cfg : censor_cfg) (t : tree) (e : slogev), In e (censor_logs cfg (Some t)) ->
+  sl_text e = TEmpty \/
+  exists r : tree, sl_text e = TPrinted r /\ forall u : tree, reach r u -> literal_node u = false.
+Proof.
+  intros cfg t e H. destruct (firewall_logs_redacted_only cfg (Some t) e H) as [He|[t' [Ht He]]]; [left; exact He|].
+  right. exists (redact VALUE_MASK t'). split; [exact He|]. intros u Hu. eapply redact_leaves_no_literal; exact Hu.
+Qed.
+Print Assumptions C16_firewall_log_text_has_no_literal.
+
+(** what reaches a file: the capture handler gets the redacted text (or nothing); a statement's raw text is written
+    only when it did not parse and the operator configured parse_errors_log *)
+Theorem C16_firewall_captures_redacted_only :
+  forall (cfg : censor_cfg) (p : bool) (k : tkind),
+  In k (ko_captured (censor_handle_k cfg p)) ->
+  safe_kind k = true \/ (p = false /\ cfg_unparsed_writer cfg = true).
+Proof. exact firewall_captures_redacted_only. Qed.
+Print Assumptions C16_firewall_captures_redacted_only.
 
 (** proxies' debug line, both parser modes; the parser's own line for a partially parsed DDL *)
 Theorem C16_proxy_never_logs_unparsed : forall m : pmode, forallb quiet (proxy_debug_log m None) = true.
@@ -191,6 +264,31 @@ Example ex_visit_tables :
   dispatch false T_Select = (true, VISIT_SELECT_DEFAULT) /\ vc_return (clause_of false T_Select) = VR_stop /\
   vc_action (snd (dispatch false T_ComparisonExpr)) = VA_convert_comparison /\
   vc_action (snd (dispatch true T_SQLVal)) = VA_convert_val_dedup.
+Proof. vm_compute. repeat split; reflexivity. Qed.
+
+(** the table-driven model runs the branches the seeded class needs: a statement on the ignore list is logged at
+    info level in its redacted form; an unparseable statement on the ignore list (ignore_parse_error on) yields the
+    parse warning and the "can't be shown" line, the raw text only goes to the parse_errors_log file; a denied
+    statement yields the error line with the redacted text and the debug line; the tables are not empty *)
+Example ex_sites_ignore_match :
+  map (fun e => (ke_level e, ke_kind e)) (ko_logs (censor_handle_k (mkCfg [HCapture; HIgnore true; HCheck VDeny] false true) true)) =
+  [(CL_info, KRedacted)].
+Proof. vm_compute. reflexivity. Qed.
+
+Example ex_sites_ignore_unparsed :
+  let o := censor_handle_k (mkCfg [HIgnore true] true true) false in
+  map (fun e => (ke_level e, ke_kind e)) (ko_logs o) = [(CL_warning, KEmpty); (CL_info, KEmpty)] /\
+  ko_captured o = [KRaw] /\ ko_denied o = false.
+Proof. vm_compute. repeat split; reflexivity. Qed.
+
+Example ex_sites_denied :
+  map (fun e => (ke_level e, ke_kind e)) (ko_logs (censor_handle_k (mkCfg [HIgnore false; HCheck VDeny] false false) true)) =
+  [(CL_error, KRedacted); (CL_debug, KEmpty)].
+Proof. vm_compute. reflexivity. Qed.
+
+Example ex_sites_tables_not_empty :
+  (10 <=? N.of_nat (length CENSOR_HANDLE_QUERY)) = true /\ (6 <=? N.of_nat (length all_resolved_args)) = true /\
+  existsb (fun c => match call_branch c with CB_ignore_match => true | _ => false end) CENSOR_HANDLE_QUERY = true.
 Proof. vm_compute. repeat split; reflexivity. Qed.
 
 (** the log theorems are about real configurations: a denying firewall logs the redacted text, an
